@@ -841,6 +841,66 @@ func checkErrorsExaminedOnEveryPath(p *Program, r *Result, pkgs []string) {
 			}
 		}
 	}
+	// an error carried around a loop in a variable: before the loop comes round it has been looked
+	// at — otherwise the next assignment to the variable overwrites it and only the error of the
+	// last iteration is ever seen
+	for _, fn := range p.Funcs {
+		if !inPkg(fn, pkgs...) || len(fn.Blocks) == 0 {
+			continue
+		}
+		for _, l := range naturalLoops(fn) {
+			for _, hi := range l.Header.Instrs {
+				ph, ok := hi.(*ssa.Phi)
+				if !ok {
+					break
+				}
+				if !isErrorType(ph.Type()) {
+					continue
+				}
+				for k, pr := range l.Header.Preds {
+					if !l.Blocks[pr] {
+						continue
+					}
+					e := stripConv(ph.Edges[k])
+					ein, isIn := e.(ssa.Instruction)
+					if !isIn || e == ssa.Value(ph) {
+						continue
+					}
+					if _, isPhi := e.(*ssa.Phi); isPhi {
+						continue
+					}
+					if _, isCall := e.(*ssa.Call); !isCall {
+						if _, isEx := e.(*ssa.Extract); !isEx {
+							continue
+						}
+					}
+					// from the definition of e to the header along this back edge: some branch looks at e
+					paths, okp := p.EnumPathsStop(ein.Block(), map[*ssa.BasicBlock]bool{l.Header: true})
+					if !okp {
+						continue
+					}
+					for _, pa := range paths {
+						if pa.End != "stop" || len(pa.Blocks) < 2 || pa.Blocks[len(pa.Blocks)-2] != pr {
+							continue
+						}
+						looked := false
+						for i, blk := range pa.Blocks[:len(pa.Blocks)-1] {
+							if i >= len(pa.Edge) || pa.Edge[i] < 0 {
+								continue
+							}
+							if ifi, ok := blk.Instrs[len(blk.Instrs)-1].(*ssa.If); ok && valueMentions(ifi.Cond, map[ssa.Value]bool{e: true, ph.Edges[k]: true}, 0) {
+								looked = true
+							}
+						}
+						if !looked {
+							r.Bad(fn.String(), "errloop:"+ph.Comment+"#"+itoa(k), r.pos(ein), "the error assigned here is carried into the next iteration of the loop without having been looked at (path "+pa.String()+"): the next assignment overwrites it, so a failure in the middle is lost")
+							break
+						}
+					}
+				}
+			}
+		}
+	}
 	if n > 0 {
 		r.OK("library", "errpaths", "", itoa(n)+" error results, each examined, returned or stored on every path to a return")
 	}
